@@ -28,6 +28,10 @@ def _with_metaclass(meta, *bases):
         return type.__new__(metaclass, b'temporary_class', (), {})
 
 
+class _NoValue:
+    ''' Marker for the fields of a packet that hold no value. '''
+
+
 class PacketError(Exception):
     def __init__(
         self, was_error_found_in_unpacking_phase, field_name,
@@ -195,7 +199,14 @@ class Packet(_with_metaclass(bisturi.packet_builder.MetaPacket, object)):
             return False
 
         for name, f, pack, _ in self.get_fields():
-            if getattr(self, name) != getattr(other, name):
+            # pseudo fields (the moves added by at/shift/aligned, Em) never
+            # hold a value: there is nothing to compare
+            mine = getattr(self, name, _NoValue)
+            theirs = getattr(other, name, _NoValue)
+            if mine is _NoValue and theirs is _NoValue:
+                continue
+
+            if mine is _NoValue or theirs is _NoValue or mine != theirs:
                 return False
 
         return True
@@ -211,7 +222,11 @@ class Packet(_with_metaclass(bisturi.packet_builder.MetaPacket, object)):
     def __repr__(self):
         msg = [f'{self.__class__.__name__}:']
         for name, f, _, _ in self.get_fields():
-            msg.append(f'  {name}: {getattr(self, name)}')
+            value = getattr(self, name, _NoValue)
+            if value is _NoValue:
+                continue  # pseudo field without a value (see __eq__)
+
+            msg.append(f'  {name}: {value}')
 
         return '\n'.join(msg)
 
